@@ -21,13 +21,17 @@ Definition sourced (s : Sim) (vid : id) (nx : VState) : Prop :=
 
 Inductive MStepA : Sim -> Sim -> Prop :=
 | M_transition s vid st nx s' : vstate_of s vid = Some st -> transition env s (vid, st) (vid, nx) = Ok s' -> sourced s vid nx -> MStepA s s'
-| M_perform s vid st s' : vstate_of s vid = Some st -> perform_update env vid st s = Ok s' -> MStepA s s'
+| M_perform s vid st s' : vstate_of s vid = Some st -> perform_update env vid st s = Ok s' -> terminal env vid st s = false -> MStepA s s'
 | M_cancel s rid : MStepA s (cancel_one env s rid)
 | M_admit s r : r_disp r = None -> MStepA s (admit_request env s r)
 | M_price s sid prices : MStepA s (update_station_prices env s sid prices)
 | M_driver rt s v s' : allow = true -> driver_update env rt s v = Ok s' -> MStepA s s'
 | M_ghost s s' : same_entities s s' -> log s' = log s -> MStepA s s'
-| M_tick s : MStepA s (sim_tick s).
+| M_tick s : MStepA s (sim_tick s)
+(* VehicleState.default_update under a terminal condition: the default transition immediately followed by the first _perform_update
+   of the activity entered *)
+| M_default s vid st nx s1 v' s' : vstate_of s vid = Some st -> terminal env vid st s = true -> default_terminal_state env vid st s = Ok nx ->
+    transition env s (vid, st) (vid, nx) = Ok s1 -> find vid (vehicles s1) = Some v' -> perform_update env vid (v_state v') s1 = Ok s' -> MStepA s s'.
 Inductive MStarA : Sim -> Sim -> Prop :=
 | MS_refl s : MStarA s s
 | MS_step s1 s2 s3 : MStepA s1 s2 -> MStarA s2 s3 -> MStarA s1 s3.
@@ -178,10 +182,11 @@ Proof.
 Qed.
 Lemma vs_update_macro vid st s s' : vstate_of s vid = Some st -> vs_update env vid st s = Ok s' -> MStarA s s'.
 Proof.
-  intros Hst. unfold vs_update. intro H. repeat dmatch H.
-  - eapply MS_step; [eapply M_transition; eauto using default_terminal_sourced|]. apply MStar_one. eapply M_perform; eauto.
-    unfold vstate_of. match goal with X : find vid (vehicles _) = Some _ |- _ => rewrite X end. reflexivity.
-  - apply MStar_one. eapply M_perform; eauto.
+  intros Hst. unfold vs_update. intro H. destruct (terminal env vid st s) eqn:Tm; [|apply MStar_one; eapply M_perform; eauto].
+  destruct (default_terminal_state env vid st s) as [nx| |] eqn:D; try discriminate.
+  destruct (transition env s (vid, st) (vid, nx)) as [s1| |] eqn:T; try discriminate.
+  destruct (find vid (vehicles s1)) as [v'|] eqn:Fv'; [|discriminate].
+  apply MStar_one. eapply M_default; eauto.
 Qed.
 Lemma step_vehicle_macro s vid st : vstate_of s vid = Some st -> MStarA s (step_vehicle env s (vid, st)).
 Proof.
@@ -341,6 +346,7 @@ Proof.
   - match goal with X : driver_update _ _ _ _ = Ok _ |- _ => destruct (driver_update_vstep env (dt s) true rt s v s' eq_refl X eq_refl K) as (_ & K' & _) end. exact K'.
   - destruct H as (V & _). eapply vkeys_of_same; eauto.
   - exact K.
+  - destruct (transition_vonly _ _ _ _ _ H2 K) as [K1 _]. apply (proj1 (perform_update_vonly _ _ _ _ H4 K1)).
 Qed.
 
 Lemma mstar_invariantA (P : Sim -> Prop) : (forall s s', vkeys s -> P s -> MStepA s s' -> P s') ->
